@@ -447,7 +447,7 @@ def replay(sc, run, fixed):
 def run_leg(ctx, rep, binpath, fixed):
     maxruns = 400 if not ctx.thorough() else 4000
     scs = fixed_scenarios(maxruns, ctx.rng.randrange(1, 1 << 30))
-    for k in range(12 if not ctx.thorough() else 80):
+    for k in range(12 if not ctx.thorough() else 60):
         scs.append(random_scenario(ctx.rng, k, 150 if not ctx.thorough() else 600))
     text = "".join(scn_text(s) for s in scs)
     rc, out = run_bin(binpath, input=text, timeout=1200)
